@@ -22,7 +22,7 @@ func init() {
 			StatesMean:  "distinct input strings; transitions = ParseMarkup + TextForAttribute calls",
 			Assumptions: []string{"strings beyond the length bound / outside the alphabets are not explored"},
 		},
-		QuickBudget: 70 * time.Second, ThoroughBudget: 14 * time.Minute, CrashIsViolation: true,
+		QuickBudget: 180 * time.Second, ThoroughBudget: 14 * time.Minute, CrashIsViolation: true,
 		Run: runC15,
 	})
 }
